@@ -75,6 +75,7 @@ pub fn worker(cases: &str, results: &str, start: usize) -> i32 {
             if still >= CASE_TIMEOUT_S * 2 { std::process::exit(3); }
         }
     });
+    crate::capture::install();
     std::panic::set_hook(Box::new(|_| {}));   // panics are data; keep stderr quiet
     let h = std::thread::Builder::new().stack_size(STACK_BYTES).spawn(move || {
         let mut out = std::fs::OpenOptions::new().append(true).open(&results).unwrap();
